@@ -188,3 +188,36 @@ key_convert!(c13_key_convert_u64, U64, 10, 2);
 key_convert!(c13_key_convert_i64, I64, 10, 2);
 // obligation: C13.key_convert_uuid | harness: c13_key_convert_uuid | kind: complete | bound: none (reads exactly 16 bytes; lengths 0..=17) | tier: quick
 key_convert!(c13_key_convert_uuid, TUuid, 17, 16);
+
+// C07: String keys: skip = u32 varint length prefix + that many bytes (checked against the wire format; decoding String
+// keys is out of reach, see above).
+// obligation: C07.key_skip_string_spec | harness: c07_key_skip_string_spec | kind: bounded | bound: input 8 bytes (length prefix of every varint width) | tier: quick
+#[kani::proof]
+#[kani::unwind(6)]
+fn c07_key_skip_string_spec() {
+    let data: [u8; 8] = kani::any();
+    let first = data[0];
+    let (n, plen): (u64, usize) = if first <= 251 {
+        (first as u64, 1)
+    } else {
+        let k = (first - 251) as usize;
+        let mut v: u64 = 0;
+        let mut i = 0;
+        while i < k {
+            v |= (data[1 + i] as u64) << (8 * i);
+            i += 1;
+        }
+        (v, 1 + k)
+    };
+    let mut s: &[u8] = &data;
+    let r = <TString as KeyTagImpl>::skip(&mut s);
+    let avail = (8 - plen) as u64;
+    if n <= avail {
+        assert!(r.is_ok());
+        assert!(s.len() as u64 == avail - n);
+    } else {
+        assert!(r.is_err());
+    }
+    kani::cover!(r.is_ok() && first > 251);
+    kani::cover!(r.is_err());
+}
